@@ -276,3 +276,36 @@ def find_closures(msk, lo, hi):
                     continue
         i += 1
     return res
+
+
+def closure_extents(text):
+    """(start, end) offsets of every closure (header through end of body) in `text`"""
+    msk = mask(text)
+    out = []
+    for a, b in find_closures(msk, 0, len(msk)):
+        j = b
+        # optional return type / woven contract up to the body
+        rest = msk[b:]
+        k = b + (len(rest) - len(rest.lstrip()))
+        if msk[k:k + 2] == '->' or msk[k:k + 1] == '{' or re.match(r'(requires|ensures)\b', msk[k:]):
+            k2 = msk.find('{', k)
+            if k2 >= 0:
+                try:
+                    out.append((a, match_close(msk, k2)))
+                    continue
+                except Exception:
+                    pass
+        depth, j = 0, k
+        while j < len(msk):
+            c = msk[j]
+            if c in '([{':
+                try:
+                    j = match_close(msk, j) + 1
+                except Exception:
+                    break
+                continue
+            if c in ')]};' or c == ',':
+                break
+            j += 1
+        out.append((a, j))
+    return out
